@@ -554,6 +554,13 @@ namespace chaiscript {
           return bv;
         } catch (const exception::name_conflict_error &e) {
           throw exception::eval_error("Variable redefined '" + e.name() + "'");
+        } catch (const exception::dispatch_error &e) {
+          // same report as the Var_Decl + Equation pair this node replaces
+          throw exception::eval_error("Missing clone or copy constructor for right hand side of equation",
+                                      e.parameters,
+                                      e.functions,
+                                      false,
+                                      *t_ss);
         }
       }
 
